@@ -72,7 +72,7 @@ inline std::vector<uint8_t> encode_tileset(uint32_t h, const std::vector<std::ar
 	v.insert(v.end(), rowsTopDown.begin(), rowsTopDown.end());
 	return v;
 }
-inline std::vector<size_t> tileset_fields() { return {0, 4, 8, 12, 16, 20, 24, 28, 32, 36, 40, 44, 48, 52, 56, 60, 64, 1092, 1096}; }
+inline std::vector<size_t> tileset_fields() { return {0, 4, 8, 12, 16, 20, 24, 28, 32, 36, 40, 44, 48, 52, 56, 60, 1088, 1092}; }
 
 // ---------------- PRT ----------------
 struct LImage { uint32_t scanLine, pixelOffset, height, width; uint16_t type, paletteIndex; };
